@@ -15,6 +15,15 @@ CHECKS = {
         technique='TLA+ reference reader + TLC trace validation of recorded smiles() calls (exhaustive short strings)',
         design='5/C03'),
 }
+CHECKS['C13'] = dict(
+    text='Edit.tla models MoleculeContainer (edits, memoised views with footprints, hydrogen bookkeeping, transactions, copies) and is '
+         'model checked exhaustively on bounded instances (invariants CacheCoherent, HydrogensFresh, StaysUsable, AdjacencySymmetric, '
+         'NoPendingOutsideTx; action properties Atomic, Independent); TLC-generated behaviours are replayed into real objects and every '
+         'recorded history (also random ones on corpus molecules) is validated step by step by Trace_Edit.tla against the spec state and '
+         'against a molecule rebuilt from scratch.',
+    note='trusted: TLC, Edit.tla, the rebuild() reference (add_atom/add_bond from the stored fields); seeds carry no stereo marks',
+    technique='TLA+ state machine model checked with TLC; TLC behaviours replayed into the code; recorded histories trace-validated',
+    design='5/C13')
 PENDING = {}
 
 
